@@ -433,6 +433,111 @@ Definition decodef_s0 : list tok :=
 
 (* decodef_s0: lambda/def tokens at [(3, 'def')] *)
 
+(* ---- a lambda passed by keyword (finding F28, repaired by d451731)
+     kwone:  r = ds.Select(f=lambda e: e.b)                                       `lambda` token: 8
+     kwtwo:  r = ds.Select(lambda e: e.a).Select(f=lambda e: e.b)                 `lambda` tokens: 6, 18
+     kwown:  r = ds.Select(
+                 f=lambda e: e.b)                 kwown_s0 from row 2, kwown_s1 from row 1; `lambda` token of kwown_s1: 9 ---- *)
+Definition kwone_s0 : list tok :=
+  [T 1 KName "r";
+   T 1 KOp "=";
+   T 1 KName "ds";
+   T 1 KOp ".";
+   T 1 KName "Select";
+   T 1 KOp "(";
+   T 1 KName "f";
+   T 1 KOp "=";
+   T 1 KName "lambda";
+   T 1 KName "e";
+   T 1 KOp ":";
+   T 1 KName "e";
+   T 1 KOp ".";
+   T 1 KName "b";
+   T 1 KOp ")";
+   T 1 KNewline nl_text;
+   T 2 KOther ""].
+
+Definition kwtwo_s0 : list tok :=
+  [T 1 KName "r";
+   T 1 KOp "=";
+   T 1 KName "ds";
+   T 1 KOp ".";
+   T 1 KName "Select";
+   T 1 KOp "(";
+   T 1 KName "lambda";
+   T 1 KName "e";
+   T 1 KOp ":";
+   T 1 KName "e";
+   T 1 KOp ".";
+   T 1 KName "a";
+   T 1 KOp ")";
+   T 1 KOp ".";
+   T 1 KName "Select";
+   T 1 KOp "(";
+   T 1 KName "f";
+   T 1 KOp "=";
+   T 1 KName "lambda";
+   T 1 KName "e";
+   T 1 KOp ":";
+   T 1 KName "e";
+   T 1 KOp ".";
+   T 1 KName "b";
+   T 1 KOp ")";
+   T 1 KNewline nl_text;
+   T 2 KOther ""].
+
+Definition kwown_s0 : list tok :=
+  [T 2 KOther "    ";
+   T 2 KName "f";
+   T 2 KOp "=";
+   T 2 KName "lambda";
+   T 2 KName "e";
+   T 2 KOp ":";
+   T 2 KName "e";
+   T 2 KOp ".";
+   T 2 KName "b";
+   T 2 KOp ")";
+   T 2 KNewline nl_text;
+   T 3 KOther "";
+   T 3 KOther ""].
+
+Definition kwown_s1 : list tok :=
+  [T 1 KName "r";
+   T 1 KOp "=";
+   T 1 KName "ds";
+   T 1 KOp ".";
+   T 1 KName "Select";
+   T 1 KOp "(";
+   T 1 KNl nl_text;
+   T 2 KName "f";
+   T 2 KOp "=";
+   T 2 KName "lambda";
+   T 2 KName "e";
+   T 2 KOp ":";
+   T 2 KName "e";
+   T 2 KOp ".";
+   T 2 KName "b";
+   T 2 KOp ")";
+   T 2 KNewline nl_text;
+   T 3 KOther ""].
+
+(* segment decompositions: the keyword and its `=` belong to the gap, the segment's name is the method *)
+Definition kw_body_b : list tok := [T 1 KName "e"; T 1 KOp ":"; T 1 KName "e"; T 1 KOp "."; T 1 KName "b"].
+Definition kwone_g1 : segment :=
+  mkSeg [T 1 KName "r"; T 1 KOp "="; T 1 KName "ds"; T 1 KOp "."] "Select" 1 [T 1 KOp "("; T 1 KName "f"; T 1 KOp "="]
+        1 kw_body_b (T 1 KOp ")").
+Definition kwone_tail : list tok := [T 1 KNewline nl_text; T 2 KOther ""].
+Definition kwtwo_g1 : segment :=
+  mkSeg [T 1 KName "r"; T 1 KOp "="; T 1 KName "ds"; T 1 KOp "."] "Select" 1 [T 1 KOp "("]
+        1 [T 1 KName "e"; T 1 KOp ":"; T 1 KName "e"; T 1 KOp "."; T 1 KName "a"] (T 1 KOp ")").
+Definition kwtwo_g2 : segment :=
+  mkSeg [T 1 KOp "."] "Select" 1 [T 1 KOp "("; T 1 KName "f"; T 1 KOp "="] 1 kw_body_b (T 1 KOp ")").
+Definition kwown_g1 : segment :=
+  mkSeg [T 1 KName "r"; T 1 KOp "="; T 1 KName "ds"; T 1 KOp "."] "Select" 1
+        [T 1 KOp "("; T 1 KNl nl_text; T 2 KName "f"; T 2 KOp "="]
+        2 [T 2 KName "e"; T 2 KOp ":"; T 2 KName "e"; T 2 KOp "."; T 2 KName "b"] (T 2 KOp ")").
+Definition kwown_tail : list tok := [T 2 KNewline nl_text; T 3 KOther ""].
+
 (* ---- the refutations of the pinned selection ---- *)
 Lemma pinned_refuted :
   exists P streams L dsrc caller args s k toks k0,
@@ -458,4 +563,18 @@ Lemma defkw_refuted :
   exists P streams L dsrc caller args, find_pinned P streams L true dsrc caller args = FoundDef.
 Proof.
   exists P_names, [w15b_s0], 1, (DSBody [SReturn]), (Some "Select"), ["e"]. vm_compute. reflexivity.
+Qed.
+
+(* finding F28: before d451731 the lambda passed by keyword was filed under the keyword's name; for the
+   second call of  ds.Select(lambda e: e.a).Select(f=lambda e: e.b)  (token 18) the first call's lambda
+   (token 6) - the only one filed under Select - was returned.  Same with the pinned selection. *)
+Lemma kwname_refuted :
+  exists P streams L dsrc caller args s k toks k0,
+    find_kwname P streams L true dsrc (Some caller) args = Found s k /\
+    find_pinned P streams L true dsrc (Some caller) args = Found s k /\
+    nth_error streams s = Some toks /\ rows_okb toks = true /\
+    lambda_atb P toks k0 L caller args = true /\ not_nestedb toks k0 = true /\ k <> k0.
+Proof.
+  exists P_names, [kwtwo_s0], 1, (DSBody []), "Select", ["e"], 0, 6, kwtwo_s0, 18.
+  vm_compute. repeat split. discriminate.
 Qed.
